@@ -95,8 +95,11 @@ class TokenManager(interfaces.RequestInterface, interfaces.TokenManager):
         # batch
         stoppers = []
         for key, request in self.outgoing_requests.items():
-            (token, request_remote) = key
-            if request_remote == remote:
+            # Not taking the remote from the key: multicast requests are
+            # registered without one (any peer may answer them), and None can
+            # not be compared to an address. What counts is where the request
+            # was sent to.
+            if request.request.remote == remote:
                 stoppers.append(
                     lambda request=request, exception=exception: request.add_exception(
                         exception
